@@ -30,7 +30,7 @@ RULE_HOME = {
     'W1': 'w_api', 'W2': 'w_api', 'W3': 'w_api', 'W4': 'w_api', 'W5': 'w_api', 'W6': 'w_api',
     'G2': 'g_lex', 'G4': 'g_lex',
     'S1': 's_state', 'S2': 's_state', 'S3': 's_state', 'S4': 's_state', 'S5': 's_state', 'S6': 's_state', 'S7': 's_state',
-    'P1': 'p_panic', 'X4': 'x_emit', 'X13': 'x_macro', 'X14': 'x_macro', 'X15': 'x_macro', 'X16': 'x_macro', 'X17': 'x_range', 'X20': 'x_range', 'X18': 'x_split', 'X19': 'x_split', 'G6t': 'g_alt', 'G16': 'g_args', 'G17': 'g_args', 'G18': 'g_args', 'G22': 'g_args', 'G19': 'g_tail', 'G20': 'g_tail', 'P3': 'p_errors',
+    'P1': 'p_panic', 'X4': 'x_emit', 'X13': 'x_macro', 'X14': 'x_macro', 'X15': 'x_macro', 'X16': 'x_macro', 'X17': 'x_range', 'X20': 'x_range', 'X18': 'x_split', 'X19': 'x_split', 'G6t': 'g_alt', 'G16': 'g_args', 'G17': 'g_args', 'G18': 'g_args', 'G22': 'g_args', 'G19': 'g_tail', 'G20': 'g_tail', 'G23': 'g_tail', 'P3': 'p_errors',
 }
 
 
@@ -117,7 +117,7 @@ PROPS = {
         'needs_mir': True,
     },
     'C03': {
-        'rules': [rule('X1'), rule('X2'), rule('X3'), rule('X17'), rule('X20'), rule('X14', keep=['define-record', 'write-conditional:define'])],
+        'rules': [rule('X1'), rule('X2'), rule('X3'), rule('X17'), rule('X20'), rule('X14', keep=['define-record', 'write-conditional:define']), rule('W6')],
         'explanation': 'Every emission site that copies source text records Range(offset, offset+len) of exactly that text under the '
                        'file being read (X1, 21 sites); only new/push/merge write the text and the map, push keys each segment by '
                        '[len before, len before + s.len()) and merge re-bases keys and origins (X3), so keys tile the output; keys '
@@ -284,7 +284,7 @@ PROPS = {
         'needs_mir': True,
     },
     'C12': {
-        'rules': [rule('S3'), rule('G0'), rule('G12'), rule('G14'), rule('G5'), rule('G6t'), rule('G22')],
+        'rules': [rule('S3'), rule('G0'), rule('G12'), rule('G14'), rule('G5'), rule('G6t'), rule('G22'), rule('G23')],
         'explanation': 'A directive parsed as trivia leaves the directive stack and the keyword-version stack as it found them on every '
                        'path: forward dataflow over the MIR CFG of all 8310 bodies of the parser crate computes the net effect at each '
                        'return; every body is neutral except the two directives whose meaning is the effect (S3). Every grammar-level '
@@ -348,7 +348,7 @@ PROPS = {
         'needs_mir': True,
     },
     'C06': {
-        'rules': [rule('X4', drop=['strip-']), rule('X1'), rule('G10'), rule('G15'), rule('G17', keep=['string-literal:']), rule('G18'), rule('G22')],
+        'rules': [rule('X4', drop=['strip-']), rule('X1'), rule('G10'), rule('G15'), rule('G17', keep=['string-literal:']), rule('G18'), rule('G22'), rule('W6'), rule('X2'), rule('X3', keep=[':push', ':merge'])],
         'explanation': 'Restricted to the directive-free part of the pp type graph (SourceDescription::{Comment, StringLiteral, NotDirective, '
                        'EscapedIdentifier} and their trivia) every leaf is emitted exactly once: each variant has an emitting arm (X4b), an '
                        'arm that pushes its whole node either skips the node, or suppresses exactly the descendants that would emit '
@@ -358,7 +358,7 @@ PROPS = {
                        'every backslash takes the next character with it (G17), so a string is rejected only when it is unterminated. The plain-text '
                        'run stops exactly at the first characters of its sibling alternatives, and a lone `/` is refused exactly before the '
                        'second character of a comment opener (G18): no directive-free character sequence is left without an alternative.',
-        'decided': 'X4a X4b X1 G10 G17 G18 G15 (G15: a token-level boundary test that needs a next character has an end-of-input alternative, so text ending right after the token is not rejected)',
+        'decided': 'X4a X4b X1 X2 X3p W6 G10 G17 G18 G22 G15 (X2/X3p: the origin map is keyed by exactly the byte range that was appended; W6: the file entry hands on exactly the bytes it read; G15: a token-level boundary test that needs a next character has an end-of-input alternative, so text ending right after the token is not rejected)',
         'not_decided': 'the rejection clause (which inputs pp_parser rejects); the fixed-point clause (a relation between two runs)',
         'assumptions': ['below a CompilerDirective node white_space yields only WhiteSpace::Space (premise checked from the white_space body and the begin/end_directive bracket)'],
         'level_text': 'Arm-by-arm emission analysis over the CST type graph: each arm that can emit a leaf twice or a kind without handler is named.',
